@@ -278,10 +278,10 @@ fn deep_chain_case(r: &mut Prng) -> Case {
 
 /// seeded nesting: a chain of re-entrant handlers, each evaluating a program
 /// that invokes the next one
-fn nested_case(r: &mut Prng) -> Case {
+fn nested_case(r: &mut Prng, big: bool) -> Case {
     let mut case = Case::new("nested");
     case.slots.push(CtxSpec { vars: vec![("x".into(), Val::int(1))], funcs: vec![] });
-    let depth = 2 + r.usize(3);
+    let depth = 2 + r.usize(if big { 6 } else { 3 });
     // build from the innermost handler outwards
     let mut inner_prog: Option<(Expr, Vec<(String, usize)>)> = None; // program + ctx functions it needs
     for level in (0..depth).rev() {
@@ -414,7 +414,7 @@ impl Prop for C14 {
         matrix().len() as u64 + 20000 * tier.scale()
     }
 
-    fn run_index(&self, idx: u64, seed: u64, _tier: Tier, rt: &mut Rt) -> Vec<Violation> {
+    fn run_index(&self, idx: u64, seed: u64, tier: Tier, rt: &mut Rt) -> Vec<Violation> {
         let cells = matrix();
         let case = if (idx as usize) < cells.len() {
             let (k, a, p) = cells[idx as usize];
@@ -432,7 +432,7 @@ impl Prop for C14 {
                 rt.probe("deep_reentrant_chain");
                 deep_chain_case(&mut r)
             } else {
-                nested_case(&mut r)
+                nested_case(&mut r, tier == Tier::Thorough)
             }
         };
         let case = Arc::new(case);
